@@ -46,6 +46,15 @@ BEFORE = "import os\nfrom typing import Optional\n\nBEFORE_CONSTANT = 1\n\n\ndef
 AFTER = "\n\nclass UnrelatedAfter(object):\n    \"\"\"not a target\"\"\"\n\n    z: int = 0\n\n\nAFTER_CONSTANT = 2\n"
 
 
+# surroundings that NAME the targets (Sync!Arounds "mentions"): strings, __all__, a registry, calls -- before and after the target
+BEFORE_M = ('"""\nModule that holds ConfigClass, C.train and set_cli_args\n"""\n\nimport os\nfrom typing import Optional\n\n'
+            '__all__ = ["ConfigClass", "C", "train", "set_cli_args"]\nTARGET_NAMES = ("ConfigClass", "train", "set_cli_args")\n\n\n'
+            'def describe(name="ConfigClass"):\n    """not a target; mentions train and set_cli_args"""\n    return "set_cli_args" if name == "train" else name\n\n\n')
+AFTER_M = ('\n\nREGISTRY = {"ConfigClass": globals().get("ConfigClass"), "train": getattr(globals().get("C"), "train", None),\n'
+           '            "set_cli_args": globals().get("set_cli_args")}\n\n\ndef uses_targets():\n    """not a target"""\n'
+           '    return [describe("ConfigClass"), describe("train"), describe("set_cli_args")]\n')
+
+
 def target_source(kind, which, g):
     import cdd.argparse_function.emit
     import cdd.class_.emit
@@ -138,7 +147,8 @@ def run_case(args):
             else:
                 with contextlib.redirect_stdout(io.StringIO()), contextlib.redirect_stderr(io.StringIO()):
                     t = target_source(k, f["iface"], g)
-                text = (BEFORE if f["around"] == "both" else "") + t + "\n" + (AFTER if f["around"] == "both" else "")
+                text = ({"both": BEFORE, "mentions": BEFORE_M, "moddoc": '"""Module docstring on one line"""\n' + BEFORE}.get(f["around"], "") + t + "\n"
+                        + {"both": AFTER, "mentions": AFTER_M, "moddoc": AFTER}.get(f["around"], ""))
             with open(paths[k], "w") as fh:
                 fh.write(text)
             original[k] = text
